@@ -186,6 +186,16 @@ def generate(rng, tier):
                 yield Scn('v2-%d' % n, lines, {'class': 'validate2', 'kind': 'v2', 'K': K, 'fail': fail, 'path': path, 'arg': args[0], 'setter': setter})
 
 
+    # a by-name setter asks the callback also when the value it is given is the one already stored
+    for path, setter, arg, txt in ((b'j', 'setint', '100', b'j = 100'), (b'j', 'setint', '-5', b'j = -5'), (b's', 'setstr', hx(b'same'), b's = same'),
+                                   (b'f', 'setfloat', '4004000000000000', b'f = 2.5'), (b'il', 'setint', '7', b'il = {1, 7}')):
+        for K in (0, 1):
+            for fail in (0, 1):
+                n += 1
+                idx = '1' if path == b'il' else '0'
+                lines = ['env %s %s' % (hx(b'V'), hx(b'env'))] + gen.prelude(SCHEMA, 0) + ['parse_buf 0 ' + hx(txt + b'\n'), 'validate2 0 %s %d' % (hx(path), K), 'dump 0'] + \
+                        (['failat 1'] if fail else []) + ['%s 0 %s %s %s' % (setter, hx(path), arg, idx), 'dump 0']
+                yield Scn('same%d' % n, lines, {'class': 'validate2/same-value', 'kind': 'v2', 'K': K, 'fail': fail, 'path': path, 'arg': arg, 'setter': setter})
     # callbacks registered by a path through a multi section AFTER instances exist: they bind the option, so every
     # instance created later has them (at parse time and in the by-name setters)
     for ninst in (0, 1, 2):
